@@ -143,13 +143,16 @@ RetypeSeq == <<JStr("bogus"), JArr(<<>>), JObj([zz |-> JNum(Q(1))]), [j |-> "boo
 RenameSeq == <<"Sum", "Stack", "IrregularlyBin", "Nonsense", "Count">>
 VersionSeq == <<"0.9", "1.0", "1.2", "2.0", "2.5", "abc">>
 
+(* keys that are added: an unknown one, and names from the format's own vocabulary (required somewhere else)   *)
+AddKeys == {"extra", "entries", "data", "type", "sub:type", "atleast", "center", "w", "v"}
+
 (* mutation descriptors are homogeneous records, so they can live in a set  *)
 MutIds(doc) ==
    UNION { LET x == At(doc, p) IN
       { [p |-> p, kind |-> "retype", n |-> n, key |-> ""] : n \in {n \in DOMAIN RetypeSeq : ~DocEq(RetypeSeq[n], x)} }
       \cup (IF x.j = "obj"
             THEN { [p |-> p, kind |-> "delkey", n |-> 0, key |-> k] : k \in DOMAIN x.v }
-                 \cup { [p |-> p, kind |-> "addkey", n |-> 0, key |-> "extra"] }
+                 \cup { [p |-> p, kind |-> "addkey", n |-> 0, key |-> k] : k \in AddKeys \ DOMAIN x.v }
             ELSE {})
       \cup (IF x.j = "str" /\ x.v \in Kinds
             THEN { [p |-> p, kind |-> "rename", n |-> n, key |-> ""] : n \in {n \in DOMAIN RenameSeq : RenameSeq[n] # x.v} }
@@ -164,7 +167,7 @@ Apply(doc, m) ==
    LET x == At(doc, m.p) IN
    CASE m.kind = "retype" -> PutAt(doc, m.p, RetypeSeq[m.n])
      [] m.kind = "delkey" -> PutAt(doc, m.p, JObj(RestrictTo(x.v, DOMAIN x.v \ {m.key})))
-     [] m.kind = "addkey" -> PutAt(doc, m.p, JObj([k \in DOMAIN x.v \cup {"extra"} |-> IF k = "extra" THEN JNum(Q(1)) ELSE x.v[k]]))
+     [] m.kind = "addkey" -> PutAt(doc, m.p, JObj([k \in DOMAIN x.v \cup {m.key} |-> IF k = m.key THEN JNum(Q(1)) ELSE x.v[k]]))
      [] m.kind = "rename" -> PutAt(doc, m.p, JStr(RenameSeq[m.n]))
      [] m.kind = "delelem" -> PutAt(doc, m.p, JArr(Tail(x.v)))
      [] m.kind = "version" -> PutAt(doc, m.p, JStr(VersionSeq[m.n]))
